@@ -1080,7 +1080,11 @@ fn itera_expected(t: &[&str]) -> Option<String> {
             }
             format!("ok {:x} none", h)
         }
-        "hint" => "ok 1".to_string(),
+        "hint" | "hint0" => "ok 1".to_string(),
+        "takecollect" => {
+            let k = (b as u128).min(left);
+            format!("ok {} {}", k, show(if k > 0 { iter_item(n, a + k - 1) } else { None }))
+        }
         "vcount" => format!("ok {}", left),
         "vlast" | "vmax" => format!("ok {}", show(if left > 0 { iter_item(n, total - 1) } else { None })),
         "vmin" => format!("ok {}", show(if left > 0 { iter_item(n, a) } else { None })),
@@ -1128,6 +1132,17 @@ fn c02(t: &[&str], out: &str) -> R {
                 t[0],
                 out
             ));
+        }
+        return Ok(true);
+    }
+    if t[0] == "clonefrom" {
+        let src = parse_tab(t[3]).unwrap();
+        if !src.wf() {
+            return Ok(false);
+        }
+        let want = format!("ok {} 1", src.show());
+        if out != want {
+            return Err(format!("clone_from: the destination must become the source: expected `{}`, implementation says `{}`", want, out));
         }
         return Ok(true);
     }
